@@ -16,6 +16,10 @@ import (
 
 type nilIntr struct{}
 
+// hostFunc is a callable value implemented by the engine (used for the
+// reflection-based helpers of sort.Slice).
+type hostFunc func(fr *frame, args []value) value
+
 // declined is returned by an intrinsic that wants the real body interpreted
 // (e.g. all arguments are concrete).
 type declined struct{}
@@ -512,6 +516,10 @@ func init() {
 	}
 	stdStubs["internal/bytealg.IndexByte"] = stdStubs["bytes.IndexByte"]
 	stdStubs["internal/bytealg.IndexByteString"] = stdStubs["bytes.IndexByte"]
+	// sort.Slice: the real pdqsort_func is interpreted; only the two reflection
+	// helpers (length, swapper) are provided by the engine.
+	stdStubs["sort.Slice"] = func(fr *frame, a []value) value { return sortSlice(fr, a, "pdqsort_func") }
+	stdStubs["sort.SliceStable"] = func(fr *frame, a []value) value { return sortSlice(fr, a, "stable_func") }
 	stdStubs["fmt.Errorf"] = func(fr *frame, a []value) value {
 		return mkError(fr, miniFormat(str(a[0]), a[1].([]value)))
 	}
@@ -567,4 +575,31 @@ func init() {
 		sb.WriteByte('\n')
 		return fwrite(fr, a[0], sb.String())
 	}
+}
+
+func sortSlice(fr *frame, a []value, algo string) value {
+	x := a[0].(iface).v.([]value)
+	less := a[1]
+	swap := hostFunc(func(_ *frame, args []value) value {
+		i, j := args[0].(int), args[1].(int)
+		x[i], x[j] = x[j], x[i]
+		return nil
+	})
+	sp := fr.i.P.Pkgs["sort"]
+	fn := sp.Func(algo)
+	if fn == nil {
+		panic(engineError{"sort." + algo + " not found"})
+	}
+	ls := structure{less, swap} // sort.lessSwap{Less, Swap}
+	n := len(x)
+	if algo == "pdqsort_func" {
+		limit := 0
+		for v := uint(n); v != 0; v >>= 1 {
+			limit++
+		}
+		call(fr.i, fr, 0, fn, []value{ls, 0, n, limit})
+	} else {
+		call(fr.i, fr, 0, fn, []value{ls, n})
+	}
+	return nil
 }
